@@ -483,7 +483,50 @@ func (fc *FuncCtx) callFunction(x *ssa.Call, fn *ssa.Function, args []Val, bindi
 	}
 
 	if ct == nil && ss == nil {
-		panic(unsupported(fmt.Sprintf("call to %s (%s) which has no contract", fn.String(), site)))
+		// arbitrary code: every heap component, every global and every local whose
+		// address is passed may be written; the results are arbitrary values of their types
+		fc.sawUnknownCall = true
+		fc.noteAssumption(fmt.Sprintf("call to %s (%s) has no contract: treated as arbitrary code (writes any heap location, returns any value)", fn.String(), site))
+		old := fc.next(st)
+		n := fc.fresh("Int", "next_u")
+		fc.emit("(assert (>= " + n + " " + old + "))")
+		st.m[nextKey] = n
+		fc.touched[nextKey] = true
+		var keys []string
+		for k := range st.m {
+			if heapLikeKey(k) {
+				keys = append(keys, k)
+			}
+		}
+		for k := range fc.compSort {
+			if heapLikeKey(k) {
+				if _, ok := st.m[k]; !ok {
+					keys = append(keys, k)
+				}
+			}
+		}
+		sort.Strings(keys)
+		for _, k := range keys {
+			st.m[k] = fc.fresh(fc.compSort[k], "u_"+shortKey(k))
+			fc.touched[k] = true
+		}
+		reachable := append(append([]Val{}, args...), bindings...)
+		for _, a := range args {
+			if a.Clo != nil { // a closure handed to arbitrary code may be called: its captured variables may be written
+				for _, b := range a.Clo.Bindings {
+					reachable = append(reachable, fc.val(st, b))
+				}
+			}
+		}
+		for _, a := range reachable {
+			if a.LV != nil && a.LV.Kind == lvCell {
+				lv := *a.LV
+				nv := fc.fresh(fc.S.SortOf(lv.Ty), "byref")
+				fc.store(st, &lv, nv)
+				fc.assume(reach, fc.typeInv(st, nv, lv.Ty))
+			}
+		}
+		return pack(mkResults(st, ""))
 	}
 
 	if ss != nil && len(ss.Hints) > 0 && x != nil {
